@@ -9,7 +9,7 @@
 (*   diagonal = - row sum                                                  *)
 (* and the invariants compare it with the declarative formula of SqraOps.  *)
 (***************************************************************************)
-EXTENDS SqraOps
+EXTENDS SqraOps, SequencesExt
 
 CONSTANTS N, SH, Vs, Ks, Ds, Caps, Base, Bug
    \* Bug: "none" | "asymmetricS" | "hOtherOrder" | "volumeOfColumn" | "exponentSign" | "symmetricCap" | "lostHalf"
@@ -38,8 +38,8 @@ Init == /\ \E P \in SUBSET UPairs : \E sh \in [P -> SH] : \E v \in Vs : \E ks \i
         /\ Q = <<>> /\ phase = "input"
 
 (* stored entry order of a row-major (csr / row-major coo) matrix *)
-RowMajor(P) == LET lt(a, b) == a[1] < b[1] \/ (a[1] = b[1] /\ a[2] < b[2]) IN
-  CHOOSE s \in [1 .. Cardinality(P) -> P] : \A a, b \in 1 .. Cardinality(P) : a < b => lt(s[a], s[b])
+RowMajor(P) == SortSeq(SetToSeq(P), LAMBDA a, b : a[1] < b[1] \/ (a[1] = b[1] /\ a[2] < b[2]))
+
 OpData ==
   LET ord == RowMajor(inst.pat)
       hord == IF Bug = "hOtherOrder" THEN [e \in 1 .. Len(ord) |-> ord[Len(ord) + 1 - e]] ELSE ord   \* h stored in another entry order
